@@ -7,7 +7,7 @@ from vlib.hist_subjects import enumerate_histories, histories, run_history
 PROPERTY_ID = "C20"
 LEVEL = "exploration"
 RULE = (
-    "Generated (Hypothesis, whole command list shrinks as one value): histories of 1..40 (quick) / 1..120 (thorough) "
+    "Generated (Hypothesis, whole command list shrinks as one value): histories of 1..40 (quick) / 1..120 (thorough; an 'active' prefix without terminal/dispose followed by a general tail, mixed minimum lengths, mean ~20/~35) "
     "commands sub(behaviour)/unsub(i)/on_next(v in the full value domain incl. None and falsy values)/on_error/"
     "on_completed/dispose on one Subject, indices resolved modulo the live observers; observer behaviours: plain recorder, "
     "unsubscribe itself / unsubscribe another observer / subscribe a new observer from inside its k-th callback "
@@ -19,7 +19,9 @@ RULE = (
     "observers subscribed when the call is made, skipping those unsubscribed earlier in the same delivery; observers "
     "subscribing during a delivery do not get that notification; after a terminal a subscriber gets only the terminal. "
     "Non-trivial: the history has a subscribe after an accepted on_next AND (an in-callback unsubscribe of a still "
-    "subscribed observer fired, or a subscribe after termination). Distinct = distinct case JSON."
+    "subscribed observer fired, or a subscribe after termination). "
+    "A third check (falsy_error, run last) repeats short histories in which on_error is given a valid exception object whose "
+    "truth value is False (it defines __len__ == 0). Distinct = distinct case JSON."
 )
 ASSUMPTIONS = [
     "observers are attached through the public Observable.subscribe (auto-detaching wrapper included); within one delivery observers are served in subscription order",
@@ -54,7 +56,7 @@ def checks(tier):
     n = 40 if tier == "quick" else 120
     return [
         Check("enum", _run, cases=_enum, shards={"quick": 8, "thorough": 16}, exhaustive=True),
-        Check("gen", _run, strategy=histories("subject", n), examples={"quick": 4000, "thorough": 16 * 20000}, shards={"quick": 4, "thorough": 16}),
+        Check("gen", _run, strategy=histories("subject", n), examples={"quick": 3200, "thorough": 16 * 20000}, shards={"quick": 8, "thorough": 16}),
         # last on purpose: a failure here must not cut the two searches above short
         Check("falsy_error", _run, strategy=histories("subject", 12, falsy_error=True), examples={"quick": 400, "thorough": 16 * 1000}, shards={"quick": 1, "thorough": 16}),
     ]
